@@ -35,6 +35,9 @@ def gen_cases(rng, tier, count=None):
         c = {"kind": "partition", "part": name, "box": C.gen_box(rng, dim)[0], "np_seed": int(rng.integers(1 << 30)),
              "ops_seed": int(rng.integers(1 << 30)), "steps": int(rng.integers(6, 30)),
              "p_deepen": float(rng.choice([0.0, 0.3, 0.7])), "max_nodes": 300, "_cost": 0.1}
+        if rng.random() < 0.25:
+            # one very deep path (labels grow like K^depth: beyond 2^63 from depth 28 (K=5) / 40 (K=3) / 64 (K=2))
+            c.update(chain=str(rng.choice(["last", "random"])), p_deepen=0.0, steps=int(rng.integers(45, 90)))
         out.append(c)
     return out
 
